@@ -253,6 +253,24 @@ def run(prop, tier="quick", seed=0, replay=None, selftest=None):
     if ex:
         cases += list(ex)
     cases += list(prop.generate(rng, n, tier))
+    # source watch (DESIGN 5.6): a changed pybrops source never alarms by itself; it escalates the quick
+    # exploration (further PRNG streams) so that an edit is always met with a deeper run
+    watch = {"baseline": None, "changed_files": None, "escalated_cases": 0}
+    try:
+        from . import srcwatch
+        diff, base_head = srcwatch.changed(compat.REPO)
+        watch["baseline"] = base_head
+        watch["changed_files"] = diff if diff is None else diff[:50]
+        if diff and tier == "quick" and not os.environ.get("VERIF_NO_ESCALATE"):
+            k = int(os.environ.get("VERIF_ESCALATE") or 3)
+            n_before = len(cases)
+            for j in range(1, k + 1):
+                cases += list(prop.generate(random.Random(seed * 7919 + 17 + j * 1000003), n, tier))
+            watch["escalated_cases"] = len(cases) - n_before
+            print(f"[{pid}] source watch: {len(diff)} source file(s) differ from baseline {str(base_head)[:8]} "
+                  f"({', '.join(diff[:4])}{' ...' if len(diff) > 4 else ''}): exploring {watch['escalated_cases']} further cases")
+    except Exception as e:      # the watch is an optimisation of the exploration, never a verdict
+        watch["error"] = f"{type(e).__name__}: {e}"[:200]
     verdicts = evaluate(prop, cases)
 
     spec_fail = [(c, v) for c, v in zip(cases, verdicts) if not v["spec"]]
@@ -364,6 +382,7 @@ def run(prop, tier="quick", seed=0, replay=None, selftest=None):
             "samples": samples,
             "exhaustive": bool(exhaustive),
             "selftest_kills": kills,
+            "srcwatch": watch,
         },
         "assumptions": list(prop.ASSUMPTIONS),
         "wall_s": round(time.time() - t0, 2),
